@@ -983,6 +983,13 @@ func (c *Ctx) SecurityDoc(kinds []string) *Doc {
 			op.Security = &[]map[string][]string{{a: {}, b: {}}}
 		}
 		c.Tag("op:" + kind)
+		// an operation may document the header its bearer scheme reads as a parameter of its own
+		if ka == "bearer" && strings.Contains(kind, "A") || kb == "bearer" && strings.Contains(kind, "B") {
+			if rapid.IntRange(0, 5).Draw(t, "documents_authorization_header") == 0 {
+				op.Parameters = append(op.Parameters, &Parameter{Name: "Authorization", In: "header", Schema: &Schema{Type: "string"}})
+				c.Tag("op:documents-authorization-header")
+			}
+		}
 		return op
 	}
 	for _, k := range reqs {
